@@ -14,6 +14,16 @@ pub fn run(ctx: &mut Ctx) {
             solver_history(ctx, rng, 10, steps);
         });
     }
+    // the same histories with the CNF's variables spread over up to 200 labels (most indices
+    // unused): watch lists, models and variable sets span several machine words
+    for case in ctx.cases("wide", 500, true) {
+        ctx.run_case("wide", case, |ctx, rng| {
+            let steps = rng.range(30, 150);
+            let _g = LabelMapGuard::new(random_label_map(10, rng));
+            ctx.count("solvers_over_spread_labels", 1);
+            solver_history(ctx, rng, 10, steps);
+        });
+    }
     for case in ctx.cases("long", 48, true) {
         ctx.run_case("long", case, |ctx, rng| {
             let steps = rng.range(300, 600);
@@ -36,6 +46,7 @@ pub fn run(ctx: &mut Ctx) {
 
 #[derive(Clone, PartialEq, Debug)]
 struct Obs {
+    is_set_ok: bool,
     model: Vec<Option<bool>>,
     is_sat: bool,
     hash: u128,
@@ -44,16 +55,15 @@ struct Obs {
 
 fn observe(s: &SATSolver, n: usize) -> Obs {
     let m = s.verif_model();
-    let model: Vec<Option<bool>> = (0..n).map(|v| m.get(VarLabel::new(v as u64))).collect();
-    for v in 0..n {
-        // the public accessor must agree with the model
-        assert!(s.is_set(VarLabel::new(v as u64)) == model[v].is_some(), "is_set disagrees with the model");
-    }
+    let model: Vec<Option<bool>> = (0..n).map(|v| m.get(lab(v))).collect();
+    // the public accessor must agree with the model
+    let is_set_ok = (0..n).all(|v| s.is_set(lab(v)) == model[v].is_some());
     Obs {
+        is_set_ok,
         model,
         is_sat: s.is_sat(),
         hash: s.cur_hash(),
-        diff: s.difference_iter().map(|l| (l.label().value_usize(), l.polarity())).collect(),
+        diff: s.difference_iter().map(|l| (unlab(l.label()), l.polarity())).collect(),
     }
 }
 
@@ -129,8 +139,12 @@ impl<'a> Mon<'a> {
     /// all per-state checks; `decisions` are the literals on the solver's stack
     fn check_state(&mut self, ctx: &mut Ctx, o: &Obs, decisions: &[(usize, bool)], when: &str) {
         ctx.count("states_checked", 1);
-        let info = |m: &Mon| json!({"clauses": clauses_json(m.cl), "trace": m.trace, "when": when});
+        let info = |m: &Mon| json!({"clauses": clauses_json(m.cl), "trace": m.trace, "when": when, "label_of_variable": label_map()});
         let models = self.models_of(decisions);
+        if !o.is_set_ok {
+            ctx.violation("up.is_set", "is_set disagrees with the solver's current model", json!({"ctx": info(self)}));
+            return;
+        }
         // (1) soundness: every assigned value is entailed
         for v in 0..self.n {
             if let Some(b) = o.model[v] {
@@ -263,6 +277,7 @@ fn gen_up_cnf(rng: &mut Rng, max_vars: usize) -> Clauses {
 fn solver_history(ctx: &mut Ctx, rng: &mut Rng, max_vars: usize, steps: usize) {
     let cl = gen_up_cnf(rng, max_vars);
     let n = clauses_num_vars(&cl);
+    fit_label_map(n);
     let cnf = clauses_to_cnf(&cl);
     let cnf_tt = clauses_tt(&cl, usize::max(n, 1));
     let nn = usize::max(n, 1);
@@ -342,7 +357,7 @@ fn solver_history(ctx: &mut Ctx, rng: &mut Rng, max_vars: usize, steps: usize) {
         }
         let mut decisions: Vec<(usize, bool)> = stack.iter().map(|(d, _)| *d).collect();
         decisions.push((v, p));
-        let res = s.decide(Literal::new(VarLabel::new(v as u64), p));
+        let res = s.decide(Literal::new(lab(v), p));
         ctx.count("decides", 1);
         match res {
             DecisionResult::UNSAT => {
@@ -426,7 +441,7 @@ fn fixed_history(ctx: &mut Ctx, cl: &Clauses, hist: &[(usize, bool)]) {
     for (v, p) in hist {
         mon.trace.push(json!([v, p]));
         decisions.push((*v, *p));
-        match s.decide(Literal::new(VarLabel::new(*v as u64), *p)) {
+        match s.decide(Literal::new(lab(*v), *p)) {
             DecisionResult::UNSAT => return,
             _ => {
                 let o = observe(&s, n);
